@@ -29,6 +29,18 @@ Alpha(f, v) ==
     [] f = "markdown" -> {"a", "FS", "Q", "BS", "HASH", "U2", "U4", "DASH", "PIPE", "COLON", "LF", "CR", "TAB"}
     [] f = "csvlite" -> {"a", "FS", "Q", "CR", "LF", "SP", "BS", "TAB", "HASH", "U2", "U4", "1"}
 Cells(A, k) == UNION {[1..n -> A] : n \in 0..k}
+\* the classes the rules of the format really hinge on: probes of three tokens are taken over these only
+Core(f, v) ==
+  CASE f = "csv" -> {"a", "FS", "Q", "CR", "LF", "SP"}
+    [] f = "tsv" -> {"a", "TAB", "BS", "t", "LF", "CR"}
+    [] f = "json" -> {"a", "Q", "BS", "u", "C1", "U4"}
+    [] f = "dkvp" -> {"a", "CR", "Q", "SP", "BS", "U4"}
+    [] f = "nidx" -> {"a", "CR", "Q", "BS", "U4", "EQ"}
+    [] f = "xtab" -> {"a", "PS", "CR", "Q", "BS", "U4"}
+    [] f = "pprint" -> {"a", "DASH", "Q", "U4", "PLUS", "PIPE"}
+    [] f = "markdown" -> {"a", "FS", "DASH", "Q", "U4", "COLON"}
+    [] f = "csvlite" -> {"a", "Q", "CR", "SP", "BS", "U4"}
+ProbeCells(f, v) == Cells(Alpha(f, v), Min(MaxTok, 2)) \cup (IF MaxTok >= 3 THEN [1..3 -> Core(f, v)] ELSE {})
 
 \* plain keys and values around the probe; formats/variants that cannot carry keys get positional ones
 PositionalOnly(f, v) == f = "nidx" \/ Headerless(v)
@@ -65,22 +77,20 @@ Specials(f, v) == {Wide(f, v, c) : c \in Cells(Alpha(f, v), 1)} \cup UNION {Het(
 
 \* the legal spellings of a stream in the standard formats
 StyleNames(f, v) ==
-  CASE f = "csv" -> (IF v = "default" THEN {"c1", "c2", "c3", "c4", "c5", "c6"} ELSE IF v = "ragged" THEN {"c7", "c3"}
-                     ELSE IF v \in {"semi", "tabfs", "headerless"} THEN {"c2", "c3"} ELSE {})
+  CASE f = "csv" -> (IF v = "default" THEN {"c1", "c2", "c3", "c4", "c5", "c6"} ELSE IF v \in {"semi", "tabfs", "headerless", "ragged"} THEN {"c2", "c3"} ELSE {})
     [] f = "tsv" -> (IF v = "default" THEN {"t1", "t2", "t3", "t4", "t5"} ELSE IF v = "headerless" THEN {"t4"} ELSE {})
     [] f = "json" -> (IF v = "default" THEN {"j1", "j2", "j3", "j4", "j5", "j6"} ELSE IF v = "jsonl" THEN {"j1", "j5"} ELSE {})
     [] OTHER -> {}
 LFs == <<"LF">>
 CRLFs == <<"CR", "LF">>
-CSt(v, q, eol, final, bom, short) == [hdr |-> ~Headerless(v), q |-> q, eol |-> eol, final |-> final, bom |-> bom, short |-> short]
+CSt(v, q, eol, final, bom) == [hdr |-> ~Headerless(v), q |-> q, eol |-> eol, final |-> final, bom |-> bom]
 StyledText(f, v, st, s) ==
-  CASE st = "c1" -> CSVText(CSt(v, "min", LFs, TRUE, FALSE, FALSE), s)
-    [] st = "c2" -> CSVText(CSt(v, "all", CRLFs, TRUE, TRUE, FALSE), s)
-    [] st = "c3" -> CSVText(CSt(v, "alt", LFs, FALSE, FALSE, FALSE), s)
-    [] st = "c4" -> CSVText(CSt(v, "alt", CRLFs, TRUE, FALSE, FALSE), s)
-    [] st = "c5" -> CSVText(CSt(v, "all", LFs, FALSE, TRUE, FALSE), s)
-    [] st = "c6" -> CSVText(CSt(v, "min", CRLFs, FALSE, FALSE, FALSE), s)
-    [] st = "c7" -> CSVText(CSt(v, "min", LFs, TRUE, FALSE, TRUE), s)
+  CASE st = "c1" -> CSVText(CSt(v, "min", LFs, TRUE, FALSE), s)
+    [] st = "c2" -> CSVText(CSt(v, "all", CRLFs, TRUE, TRUE), s)
+    [] st = "c3" -> CSVText(CSt(v, "alt", LFs, FALSE, FALSE), s)
+    [] st = "c4" -> CSVText(CSt(v, "alt", CRLFs, TRUE, FALSE), s)
+    [] st = "c5" -> CSVText(CSt(v, "all", LFs, FALSE, TRUE), s)
+    [] st = "c6" -> CSVText(CSt(v, "min", CRLFs, FALSE, FALSE), s)
     [] st = "t1" -> TSVText([hdr |-> ~Headerless(v), eol |-> LFs, final |-> TRUE, lazy |-> FALSE], s)
     [] st = "t2" -> TSVText([hdr |-> ~Headerless(v), eol |-> CRLFs, final |-> TRUE, lazy |-> FALSE], s)
     [] st = "t3" -> TSVText([hdr |-> ~Headerless(v), eol |-> LFs, final |-> FALSE, lazy |-> FALSE], s)
@@ -92,22 +102,16 @@ StyledText(f, v, st, s) ==
     [] st = "j4" -> JSONText([lay |-> "concat", esc |-> "U", sp |-> TRUE], s)
     [] st = "j5" -> JSONText([lay |-> "lines", esc |-> "u", sp |-> FALSE], s)
     [] st = "j6" -> JSONText([lay |-> "array", esc |-> "min", sp |-> FALSE], s)
-\* the ragged spelling drops trailing empty fields: the probe families have none, so give it streams that do
-ShortStreams(f, v, c) == { << <<P(K(f, v, 1), c), P(K(f, v, 2), <<>>), P(K(f, v, 3), <<>>)>>, <<P(K(f, v, 1), Y), P(K(f, v, 2), c), P(K(f, v, 3), <<>>)>>,
-                              <<P(K(f, v, 1), c), P(K(f, v, 2), c), P(K(f, v, 3), c)>> >> }
-
 FVs == {<<f, v>> : f \in (IF F = "all" THEN Formats ELSE {F}), v \in {"default", "quoteall", "crlf", "semi", "tabfs", "headerless", "ragged",
                                                                       "jsonl", "nowrap", "oneline", "comma", "barred", "right"}}
 Case(k, f, v, fam, st, s) == [k |-> k, f |-> f, v |-> v, fam |-> fam, st |-> st, s |-> s]
 RawRT == UNION {
-           {Case("rt", fv[1], fv[2], fam, "-", StreamOf(fam, fv[1], fv[2], c)) : fam \in Families, c \in Cells(Alpha(fv[1], fv[2]), MaxTok)}
+           {Case("rt", fv[1], fv[2], fam, "-", StreamOf(fam, fv[1], fv[2], c)) : fam \in Families, c \in ProbeCells(fv[1], fv[2])}
            \cup {Case("rt", fv[1], fv[2], "X", "-", s) : s \in Specials(fv[1], fv[2])}
          : fv \in {x \in FVs : x[2] \in Variants(x[1])}}
 RawTX == UNION {
            {Case("tx", fv[1], fv[2], fam, st, StreamOf(fam, fv[1], fv[2], c)) :
-              fam \in {"KB1", "KB2", "VB"}, st \in StyleNames(fv[1], fv[2]) \ {"c7"}, c \in Cells(Alpha(fv[1], fv[2]), MaxTok)}
-           \cup {Case("tx", fv[1], fv[2], "X", st, s) : st \in StyleNames(fv[1], fv[2]) \cap {"c7"},
-                                                        s \in UNION {ShortStreams(fv[1], fv[2], c) : c \in Cells(Alpha(fv[1], fv[2]), MaxTok) \ {<<>>}}}
+              fam \in {"KB1", "KB2", "VB"}, st \in StyleNames(fv[1], fv[2]), c \in ProbeCells(fv[1], fv[2])}
          : fv \in {x \in FVs : x[2] \in Variants(x[1])}}
 \* only streams inside the documented representable domain are cases
 Cases == {x \in RawRT \cup RawTX : Representable(x.f, x.v, x.s)}
